@@ -279,6 +279,55 @@ func genC05Random(t *rapid.T, cfg kit.WorldCfg, setup []kit.TxSpec, pickID func(
 	})
 }
 
+// c05TwoDatabasesBusy: two databases of one process, each written by its own goroutine with a dense run of link
+// operations over ids of its own; afterwards each holds exactly its own links, symmetrically.
+func c05TwoDatabasesBusy() error {
+	errs := make(chan error, 2)
+	for g := 0; g < 2; g++ {
+		go func(g int) {
+			errs <- func() error {
+				w, err := kit.NewWorld(c05Cfg)
+				if err != nil {
+					return err
+				}
+				defer w.Close()
+				m := kit.NewModel(c05Cfg)
+				prefix := []string{"left-", "right-"}[g]
+				var bids []string
+				setup := kit.TxSpec{Ops: []kit.Op{{Kind: "create", Store: "as", ID: prefix + "a", Spec: &kit.EntSpec{Name: "n"}}}}
+				for i := 0; i < 6; i++ {
+					bids = append(bids, fmt.Sprintf("%sb%d", prefix, i))
+					setup.Ops = append(setup.Ops, kit.Op{Kind: "create", Store: "bs", ID: bids[i], Spec: &kit.EntSpec{Name: "n"}})
+				}
+				if out := kit.RunTx(w, m, setup); out.Violation != nil || !out.Committed {
+					return fmt.Errorf("setup: %v", out.Violation)
+				}
+				for round := 0; round < 120; round++ {
+					keys := []string{bids[round%6], bids[(round+1)%6], bids[(round*5+2)%6]}
+					tx := kit.TxSpec{Ops: []kit.Op{{Kind: "setlinks", Store: "as", Field: "blinks", ID: prefix + "a", Keys: keys},
+						{Kind: "addlinks", Store: "bs", Field: "alinks", ID: bids[(round+3)%6], Keys: []string{prefix + "a"}}}}
+					if out := kit.RunTx(w, m, tx); out.Violation != nil || !out.Committed {
+						return fmt.Errorf("round %d: %v", round, out.Violation)
+					}
+					if round%20 == 19 {
+						if err := w.CheckAll(m); err != nil {
+							return fmt.Errorf("after round %d: %v", round, err)
+						}
+					}
+				}
+				return w.CheckAll(m)
+			}()
+		}(g)
+	}
+	var first error
+	for g := 0; g < 2; g++ {
+		if e := <-errs; e != nil && first == nil {
+			first = fmt.Errorf("two databases written at the same time by two goroutines (dense link operations): %v", e)
+		}
+	}
+	return first
+}
+
 func hasDup(xs []string) bool {
 	seen := map[string]bool{}
 	for _, x := range xs {
@@ -310,6 +359,9 @@ func runC05(h kit.History) kit.Result {
 			}
 		}
 		res.Classes = append(res.Classes, "two-databases-written-concurrently")
+		if res.Err == nil {
+			res.Err = c05TwoDatabasesBusy()
+		}
 	}
 	// features from a pure model replay
 	var setMixed, setDup, countToZero, deleteLinked bool
